@@ -3,7 +3,13 @@
    logger + a list of calls of the five real util functions with what each returned, followed by
    any number of later phases on the SAME viper instance: changes of the configuration (no
    viper.Reset) and then more calls.  Every answer is judged against the configuration as it stood
-   when the call was made. *)
+   when the call was made.  Between the first calls and the later phases a case may have a
+   concurrent round ([c_parallel]): several goroutines (real threads) call the functions at the same
+   time on the installed, unchanging configuration; each goroutine's list holds every DISTINCT
+   (call, answer) it saw over all its repetitions, and the last list the same calls made once more
+   one at a time after the goroutines have finished.  A concurrent round of a later phase is printed
+   as calls of that phase (after the phase's sequential calls).  Who else is asking is no input of
+   the property: every one of these answers is judged like a sequential one. *)
 From Verif Require Export Lib.Base Model.C19_Hierarchy.
 
 Inductive query :=
@@ -19,6 +25,8 @@ Record case := {
   c_cfg : config;
   c_deflevel : Z;
   c_queries : list query;
+  c_parallel : list (list query);                (* concurrent round on the installed tree: per goroutine,
+                                                    the distinct answers seen; last, asked again one at a time *)
   c_later : list (list change * list query)      (* later phases: changes, then calls *)
 }.
 
@@ -53,6 +61,7 @@ Fixpoint over_later (f : config -> Z -> query -> bool) (w : world)
 
 Definition agree (c : case) : bool :=
   forallb (agree_query (c_cfg c) (c_deflevel c)) (c_queries c)
+  && forallb (forallb (agree_query (c_cfg c) (c_deflevel c))) (c_parallel c)
   && over_later agree_query (c_cfg c, c_deflevel c) (c_later c).
 
 (* The property on the OBSERVED value alone: it is the value at the longest prefix of the dotted
@@ -70,6 +79,7 @@ Definition P_query (c : config) (def : Z) (q : query) : bool :=
 
 Definition P_b (c : case) : bool :=
   forallb (P_query (c_cfg c) (c_deflevel c)) (c_queries c)
+  && forallb (forallb (P_query (c_cfg c) (c_deflevel c))) (c_parallel c)
   && over_later P_query (c_cfg c, c_deflevel c) (c_later c).
 
 Definition mismatches (cs : list case) : list N := failing_ids c_id agree cs.
@@ -98,3 +108,19 @@ Fixpoint later_ok (w : world) (l : list (list change * list query)) : Prop :=
       let w' := apply_changes w chs in
       Forall (query_ok (fst w') (snd w')) qs /\ later_ok w' l'
   end.
+
+(* Two observed calls of the same function with the same arguments have the same answer (address
+   lists as lists).  What a concurrent round must show: the configuration standing still, the answer
+   does not depend on which goroutine asks, nor on what the others ask meanwhile. *)
+Definition same_answer (q1 q2 : query) : Prop :=
+  match q1, q2 with
+  | QAddr p1 o1, QAddr p2 o2 => p1 = p2 -> slice_items o1 = slice_items o2
+  | QTimeout p1 o1, QTimeout p2 o2 => p1 = p2 -> o1 = o2
+  | QLevel p1 o1, QLevel p2 o2 => p1 = p2 -> o1 = o2
+  | QConc p1 o1, QConc p2 o2 => p1 = p2 -> o1 = o2
+  | QBool v1 p1 o1, QBool v2 p2 o2 => v1 = v2 -> p1 = p2 -> o1 = o2
+  | _, _ => True
+  end.
+
+(* every call observed on the installed tree: the sequential ones and those of every goroutine *)
+Definition calls_on_installed (c : case) : list query := c_queries c ++ List.concat (c_parallel c).
